@@ -34,6 +34,71 @@ def history_spec(prop):
 
 
 # ------------------------------------------------------------------------------------------------
+# libFuzzer campaigns (thorough tier): coverage-guided search with the oracle inside the target
+
+
+def fuzz_campaign(ctx, target, prop, runs_per_proc, procs=16, max_len=256, itv_exe=None):
+    """returns (partial dict or None, violations list, note)"""
+    import shutil, subprocess, glob
+    fdir = os.path.join(ctx["VERIF"], "fuzz")
+    rc, out, dt = ctx["sh"](["cargo", "+nightly", "fuzz", "build", "-s", "none", "--fuzz-dir", fdir, target], cwd=fdir, timeout=3600)
+    if rc != 0:
+        return None, [], "fuzz build failed (infrastructure): " + out[-600:]
+    exe = os.path.join(fdir, "target", "x86_64-unknown-linux-gnu", "release", target)
+    base = os.path.join(ctx["TARGET"], "fuzz-work", f"{prop}-{target}")
+    shutil.rmtree(base, ignore_errors=True)
+    procs_l = []
+    for i in range(procs):
+        corpus = os.path.join(base, f"corpus-{i}")
+        art = os.path.join(base, f"art-{i}") + "/"
+        os.makedirs(corpus)
+        os.makedirs(art)
+        for f in glob.glob(os.path.join(fdir, "seeds", target, "*")):
+            shutil.copy(f, corpus)
+        env = dict(ctx["ENV"], ITV_PROP=prop)
+        cmd = [exe, f"-runs={runs_per_proc}", f"-seed={(ctx['seed'] * 16 + i + 1) & 0x7fffffff}", "-len_control=0", f"-max_len={max_len}", "-print_final_stats=1", f"-artifact_prefix={art}", corpus]
+        procs_l.append((i, subprocess.Popen(cmd, env=env, stdout=subprocess.PIPE, stderr=subprocess.STDOUT, text=True), corpus, art))
+    total_runs, corpus_sizes, viols, samples = 0, [], [], []
+    for i, p, corpus, art in procs_l:
+        try:
+            out, _ = p.communicate(timeout=4 * 3600)
+        except subprocess.TimeoutExpired:
+            p.kill()
+            out = ""
+        m = re.search(r"stat::number_of_executed_units:\s*(\d+)", out)
+        total_runs += int(m.group(1)) if m else 0
+        corpus_sizes.append(len(os.listdir(corpus)))
+        for a in sorted(glob.glob(art + "crash-*")):
+            if viols:
+                break
+            rdir = os.path.join(ctx["VERIF"], "replays", prop)
+            os.makedirs(rdir, exist_ok=True)
+            rfile = os.path.join(rdir, f"fuzz-{target}-{os.path.basename(a)[6:22]}.json")
+            itv = itv_exe or _itv(ctx, "vdbg")
+            ctx["sh"]([itv, "decode", "--prop", prop, "--file", a, "--out", rfile], timeout=600)
+            rc2, out2, _ = ctx["sh"]([itv, "replay", "--prop", prop, "--file", rfile, "--any-sig"], timeout=1200)
+            if rc2 == 1:
+                fl = "; ".join(l.strip() for l in out2.splitlines() if "FAIL" in l)[:500]
+                viols.append((rfile, f"[libFuzzer {target}] {fl}"))
+            else:
+                samples.append(f"fuzz crash {a} did not reproduce in the strict replayer (ignored)")
+    # a few corpus entries, decoded, as samples
+    for f in sorted(glob.glob(os.path.join(base, "corpus-0", "*")))[:2]:
+        rc3, out3, _ = ctx["sh"]([itv_exe or _itv(ctx, "vdbg"), "decode", "--prop", prop, "--file", f], timeout=60)
+        try:
+            d = json.loads(out3)
+            samples.append({"fuzz_corpus_entry": os.path.basename(f), "decoded": d.get("ops", d.get("case"))})
+        except Exception:
+            pass
+    part = dict(build="fuzz", label=f"libFuzzer target {target}, {procs} processes x {runs_per_proc} runs, oracle for {prop} inside the target",
+                evaluations=total_runs, distinct_nontrivial=sum(corpus_sizes), distinct_group=f"fuzz-{target}",
+                engines={"fuzz": {"target": target, "runs": total_runs, "processes": procs, "corpus_entries_with_new_coverage": corpus_sizes}},
+                samples=samples[:3])
+    shutil.rmtree(base, ignore_errors=True)
+    return part, viols, ""
+
+
+# ------------------------------------------------------------------------------------------------
 # history-based properties (C01..C13): itv in two build profiles
 
 
@@ -71,27 +136,70 @@ def run_history_prop(ctx):
         parts = k["sig"].split("/")
         exclude.append("/".join(parts[:2]) + "/")
     digests = {}
-    for prof, b in (("vdbg", "dbg"), ("vrel", "rel")):
-        part = os.path.join(ctx["TARGET"], "partials", f"{prop}-{b}.json")
-        dig = os.path.join(ctx["TARGET"], "partials", f"{prop}-{b}.dig")
+    runs = [("vdbg", "dbg", None), ("vrel", "rel", None)]
+    if prop == "C16":
+        # the round trip must hold whatever the payload looks like on the wire
+        runs = [("vdbg", "dbg", "struct"), ("vrel", "rel", "struct"), ("vrel", "rel", "int"), ("vrel", "rel", "opt"), ("vdbg", "dbg", "str"), ("vrel", "rel", "tuple")]
+    for prof, b, payload in runs:
+        tag = b if payload is None else f"{b}-{payload}"
+        part = os.path.join(ctx["TARGET"], "partials", f"{prop}-{tag}.json")
+        dig = os.path.join(ctx["TARGET"], "partials", f"{prop}-{tag}.dig")
         for f in (part, dig):
             if os.path.exists(f):
                 os.remove(f)
         cmd = [_itv(ctx, prof), "run", "--prop", prop, "--tier", tier, "--seed", str(seed), "--build", b, "--out", part, "--digests", dig]
+        if payload:
+            cmd += ["--payload", payload]
         if exclude:
             cmd += ["--exclude", ",".join(exclude)]
         rc, out, dt = ctx["sh"](cmd, timeout=6 * 3600)
         res["output"] += out
+        if rc == 3:
+            # watchdog: one case did not finish.  Confirm in a fresh process before believing it.
+            m = re.search(r"HANG property=\S+ replay=(\S+)", out)
+            path = m.group(1) if m else ""
+            cmd2 = [_itv(ctx, prof), "replay", "--prop", prop, "--file", path, "--any-sig"] + (["--payload", payload] if payload else [])
+            rc2, out2, _ = ctx["sh"](cmd2, timeout=240)
+            if rc2 == 124:
+                if prop == "C02":
+                    res["violations"].append((path, f"[{tag} build] a call of this history does not return (confirmed twice: > 90 s and > 240 s; normally milliseconds)"))
+                else:
+                    res["inconclusive"] = f"a case hangs ({path}); a call that does not return is judged by the C02 check"
+            elif rc2 == 1 and "REPLAY-FAILS" in out2:
+                res["violations"].append((path, f"[{tag} build] " + "; ".join(l.strip() for l in out2.splitlines() if "FAIL" in l)[:400]))
+            else:
+                res["inconclusive"] = f"watchdog fired but the case finished when replayed ({path}); machine overloaded?"
+            break
         if rc not in (0, 1) or not os.path.exists(part):
-            res["inconclusive"] = f"runner ({b}) exited with {rc}"
+            res["inconclusive"] = f"runner ({tag}) exited with {rc}"
             continue
         p = json.load(open(part))
+        if payload:
+            p["label"] = f"payload on the wire: {payload} ({b} build)"
+            p["distinct_group"] = payload
         res["partials"].append(p)
         if rc == 1 and p.get("violation"):
             v = p["violation"]
-            res["violations"].append((v["replay"], f"[{b} build] {v['sig']}: {v['msg']}"))
-        if os.path.exists(dig):
+            note = f" (replay with: target/deser/{prof}/itv replay --prop C16 --payload {payload} --file <replay>)" if payload else ""
+            res["violations"].append((v["replay"], f"[{tag} build] {v['sig']}: {v['msg']}{note}"))
+            if payload:
+                # remember the payload shape inside the replay file so that ./check --replay can pick it
+                try:
+                    rf = json.load(open(v["replay"]))
+                    rf["note"] = f"payload={payload}"
+                    json.dump(rf, open(v["replay"], "w"), indent=1)
+                except Exception:
+                    pass
+            break
+        if os.path.exists(dig) and payload is None:
             digests[b] = open(dig).read().splitlines()
+    if tier == "thorough" and not res["violations"] and prop not in ("C13", "C16", "C06"):
+        part, viols, note = fuzz_campaign(ctx, "hist", prop, runs_per_proc=25000)
+        if part:
+            res["partials"].append(part)
+        res["violations"] += viols
+        if note:
+            res["output"] += note + "\n"
     # debug and release builds must agree on every history (C05: "in debug and release builds alike")
     if prop == "C05" and not res["violations"] and len(digests) == 2 and digests["dbg"] != digests["rel"]:
         d1, d2 = digests["dbg"], digests["rel"]
@@ -114,8 +222,15 @@ def run_history_prop(ctx):
 def replay_history_prop(ctx):
     build_itv(ctx)
     worst = 0
+    extra = []
+    try:
+        m = re.match(r"payload=(\w+)", json.load(open(ctx["replay"])).get("note", ""))
+        if m:
+            extra = ["--payload", m.group(1)]
+    except Exception:
+        pass
     for prof in ("vdbg", "vrel"):
-        rc, out, _ = ctx["sh"]([_itv(ctx, prof), "replay", "--prop", ctx["prop"], "--file", ctx["replay"]], timeout=3600)
+        rc, out, _ = ctx["sh"]([_itv(ctx, prof), "replay", "--prop", ctx["prop"], "--file", ctx["replay"]] + extra, timeout=3600)
         print(f"--- {prof}")
         print(out.rstrip())
         if rc == 1:
@@ -466,7 +581,7 @@ def merge_coverage(prop, partials, spec):
 
 RULES["C14"] = "Generated documents: forest spec (each node attaches below the previous node, beside it, below a generated earlier node, or starts/extends a top-level chain; built with append_value / append / prepend) x four independent renderings per payload (1-4 lines, empty first/interior lines, guide look-alike text, tabs, multi-byte chars; last line non-empty) x a chunking plan for the payload's write_str calls. EVERY node is used as start node in all four format modes; oracle = independent reference renderer (exact comparison; trailing blanks ignored only on empty payload lines). An evaluation is one (document, start node, mode). Non-trivial: start node with siblings and children, or a multi-line payload at relative depth >= 2 below a last-sibling ancestor; distinct by printed text."
 
-RULES["C16"] = "Histories (removal-heavy, recycling, clear, rare generation-exhausting churn) with Roundtrip ops: the arena is serialised with serde_json and deserialised; the copy must be == the original, serialise to the same text, agree on is_removed for EVERY id ever issued, and then executes the rest of the history in lock-step with the original (same outcomes, Arena == after every call, and the copy is checked against the reference model as well). Non-trivial: the free list is non-empty at the round trip and a later call allocates; distinct by (forest shape, number of free / recycled / retired slots)."
+RULES["C16"] = "Histories (removal-heavy, recycling, clear, rare generation-exhausting churn) with Roundtrip ops, run over five payload shapes on the wire (struct, bare integer, Option that may be null, string, tuple): the arena is serialised with serde_json and deserialised; the copy must be == the original, serialise to the same text, agree on is_removed for EVERY id ever issued, and then executes the rest of the history in lock-step with the original (same outcomes, Arena == after every call, and the copy is checked against the reference model as well). Non-trivial: the free list is non-empty at the round trip and a later call allocates; distinct by (forest shape, number of free / recycled / retired slots)."
 
 SPECS = {p: history_spec(p) for p in RULES}
 RULES["C17"] = "One seeded battery (E(3,3) exhaustively + generated histories over the whole core API: ids, links, errors with their Display text, nine traversals from every node, four pretty-printer modes, lookups, double-ended pulls) is executed by the same harness built against indextree with each feature set (quick: default, none = no_std+alloc, std, all four; thorough: all 16 subsets). Oracle: differential — per-history observation digests must be identical across builds; every build is also checked against the reference model; in par_iter builds the multiset of nodes visited by par_iter() must equal iter() at every sampled state. Non-trivial: a history with >= 1 error result and >= 1 recycled slot; distinct by (call class, forest shape)."
